@@ -203,14 +203,17 @@ META = {
              "not fired, and unlinks it (take_sound); no entry is returned twice (exclusive_handout); every entry is in exactly "
              "one of cached / handed out / closed by the pool / dropped-because-closed / owned by its expiry callback, never "
              "handed out and closed, and at quiescence handed out xor closed (ownership, never_handed_out_and_closed, "
-             "ownership_at_quiescence, closed_pool_owns_nothing); unlinking is idempotent (remove_idempotent); the eviction "
+             "ownership_at_quiescence, closed_pool_owns_nothing); for callers that only put connections they hold, a held "
+             "connection has no linked and no fired-but-unclosed entry and no connection is cached twice "
+             "(held_connection_out_of_reach, one_live_entry_per_connection, take_returns_unheld); unlinking is idempotent (remove_idempotent); the eviction "
              "loops never dereference a nil head and terminate (no_panic). Tie: fingerprints of the seven pool/list functions + "
              "trace validation of the real Pool with fake connections under testing/synctest, comparing after every event the "
              "result, both list walks, both stored counts and who closed what, against the list-level and the pointer-level model.",
         design_ref="DESIGN.md §6 C15, Appendix A.5, §9-6",
         note=NOTE_COMMON + "Atomicity of the p.mu critical sections and time.Timer.Stop semantics are assumed; the proofs are about "
-             "the list-level model, the pointer-level list code is covered by the correspondence runs; connection-level "
-             "ownership for protocol-following callers is checked by direct oracles, the theorems are per entry (per Put).",
+             "the list-level model, the pointer-level list code is covered by the correspondence runs; that the pool calls "
+             "Close only through closeEntry on a linked entry, an expiry callback of a fired entry, or Put's negative-capacity "
+             "path is read off the model, the per-connection close counters are compared with the code on every event.",
         technique="Lean 4 theorems (inductive invariant over all operation/event sequences) + regenerated tie + trace validation under a fake clock",
     ),
     "C02": dict(
